@@ -38,6 +38,10 @@ class BoomInit(PydanticModelCodeGenerator):
 # kind -> (input format, bad file content or None, per-file lookup or None, extra argv, is_file_fault)
 FILE_FAULTS = {
     "missing_file": ("json", None, None),
+    "missing_file_yaml": ("yaml", None, None),
+    "missing_file_ini": ("ini", None, None),
+    "directory_instead_of_file_ini": ("ini", "<dir>", None),
+    "directory_instead_of_file": ("json", "<dir>", None),
     "malformed_json": ("json", '{"id": 1, "name": ', None),
     "empty_file": ("json", "", None),
     "malformed_yaml": ("yaml", "id: 1\nname: [unclosed\n  x: : :\n", None),
@@ -187,7 +191,9 @@ def execute(case):
             fmt, bad, lookup = FILE_FAULTS[kind]
             names, target = _prepare(d, fmt, out)
             badname = f"bad.{fmt}"
-            if bad is not None:
+            if bad == "<dir>":
+                os.makedirs(os.path.join(d, badname))
+            elif bad is not None:
                 with open(os.path.join(d, badname), "w") as f:
                     f.write(bad)
             badarg = ["-m", "Root", badname] if lookup is None else ["-m", "Root", lookup, badname]
@@ -320,7 +326,7 @@ def _inject(case):
 
 def run(tier, seed):
     r = core.Run(PROP, tier, seed, level="fault_enumeration")
-    r.rule = ("(1) 21 file fault kinds x position {only, first, middle, last} x output {stdout, -o new, -o existing sentinel} + 16 argument / "
+    r.rule = ("(1) 25 file fault kinds x position {only, first, middle, last} x output {stdout, -o new, -o existing sentinel} + 16 argument / "
               "generator fault kinds x output, as real subprocesses; fault-free runs json/yaml x output; (2) InjectedFault raised at EVERY call "
               "event k=1..N inside json_to_models for 3 inputs x {stdout, -o existing}; non-trivial = distinct (kind, position) / injection points")
     r.bounds = {"tier": tier}
